@@ -33,7 +33,7 @@ JudgeAdd(e) ==
 JudgeBulk(e) ==
     LET res == AddAll(db, e.entries) IN
          Fails(e, "BulkResult", Keys2(e.after) = res[1])
-      \o Fails(e, "BulkRejectedList", Keys2(e.rejected) = res[2])
+      \o Fails(e, "BulkRejectedList", ("no_rejected_list" \in DOMAIN e) \/ Keys2(e.rejected) = res[2])
       \o Fails(e, "NoNewClash", Clashes(Keys2(e.after)) <= Clashes(db))
       \o Fails(e, "CompositionTrue",
                \A j \in 1..Len(e.after) : j > Len(db) => CompOk(e.after[j]))
